@@ -16,7 +16,6 @@ import (
 	"os"
 	"path/filepath"
 	"runtime"
-	"runtime/pprof"
 	"sort"
 	"strings"
 	"sync"
@@ -557,9 +556,6 @@ func (g *gen) generate() {
 	g.runAll(ins, func(i int) bool { return g.cfg.Thorough() || i%2 == 0 || i >= nComplete-40 })
 	_ = nComplete
 
-	if os.Getenv("C06_ONLY") == "complete" {
-		return
-	}
 	// 2. every single-site modification of the credential document
 	ins = nil
 	docOpts := []credgen.Opts{{}, {Subject: "value", Root: "value", Upd: true, Version: 3, RevNonce: 12345678901234567890}}
@@ -900,11 +896,6 @@ func Run(cfg *common.Config) (*common.Report, error) {
 			return nil, err
 		}
 		return g.rep, nil
-	}
-	if pf := os.Getenv("C06_PROF"); pf != "" {
-		fh, _ := os.Create(pf)
-		_ = pprof.StartCPUProfile(fh)
-		defer pprof.StopCPUProfile()
 	}
 	g.generate()
 	if err := g.writeShards(); err != nil {
